@@ -8,7 +8,7 @@ exits exactly `pathUp (boundary S T) S`, leaves `T.drop i` in the cells `i < m` 
 -/
 namespace Miros.Hsm
 
-theorem exitWalk_spec (c : Chart) (S : St) : ∀ (pre : St) (k : Ctx),
+theorem exitWalk_spec (c : Chart) (hf : ∀ s, c.fall s = false) (S : St) : ∀ (pre : St) (k : Ctx),
     ∃ k', exitWalk c S (pre ++ S) k = .ok k' ∧
       actions k'.log = actions k.log ++ (pathUp S (pre ++ S)).map (⟨·, Sig.exit⟩) := by
   intro pre
@@ -20,13 +20,14 @@ theorem exitWalk_spec (c : Chart) (S : St) : ∀ (pre : St) (k : Ctx),
     obtain ⟨k', e, hl⟩ := ih (exitStep c (a :: (pre ++ S)) k)
     refine ⟨k', ?_, ?_⟩
     · rw [List.cons_append, exitWalk]
-      simp only [h1, if_false]
+      simp only [h1, if_false, hf, Bool.false_eq_true]
       exact e
     · rw [hl, exitStep_actions, List.cons_append, pathUp_cons_of_ne h1]; simp
 
-theorem eLoop_spec (T S : St) : ∀ (x : St) (tp : List St) (mx ip : Nat) (k : Ctx),
+theorem eLoop_spec (c : Chart) (hf : ∀ s, c.fall s = false) (T S : St) :
+    ∀ (x : St) (tp : List St) (mx ip : Nat) (k : Ctx),
     x = T.drop (ip + 1) → ip + 1 ≤ T.length → Buf tp T (ip + 1) → mx + 1 = tp.length → ip ≤ mx →
-    ∃ o, eLoop S x tp mx ip k = some o ∧ o.mx + 1 = o.tp.length ∧ actions o.k.log = actions k.log ∧
+    ∃ o, eLoop c S x tp mx ip k = .ok o ∧ o.mx + 1 = o.tp.length ∧ actions o.k.log = actions k.log ∧
       ((o.found = true ∧ o.ip + 1 ≤ T.length ∧ T.drop (o.ip + 1) = S ∧ Buf o.tp T (o.ip + 1)) ∨
        (o.found = false ∧ o.ip = T.length ∧ Buf o.tp T (T.length + 1) ∧
           ∀ i, ip < i → i ≤ T.length → T.drop i ≠ S)) := by
@@ -62,7 +63,7 @@ theorem eLoop_spec (T S : St) : ∀ (x : St) (tp : List St) (mx ip : Nat) (k : C
     · have hlt := drop_cons_lt hx.symm
       obtain ⟨o, ho, h1, h2, h3⟩ := ih tp1 mx1 (ip + 1) (probe (a :: p) k) (drop_cons_tail hx.symm).symm
         (by omega) hb1 hmx1 hip1
-      refine ⟨o, by simp only [e, if_false]; exact ho, h1, by rw [h2]; simp, ?_⟩
+      refine ⟨o, by simp only [e, if_false, hf, Bool.false_eq_true]; exact ho, h1, by rw [h2]; simp, ?_⟩
       rcases h3 with h3 | ⟨h3, h4, h5, h6⟩
       · exact Or.inl h3
       · refine Or.inr ⟨h3, h4, h5, ?_⟩
@@ -71,7 +72,8 @@ theorem eLoop_spec (T S : St) : ∀ (x : St) (tp : List St) (mx ip : Nat) (k : C
         · subst hi; rw [← hx]; exact e
         · exact h6 i (by omega) hi2
 
-theorem gLoop_spec (c : Chart) (tp : List St) (T : St) (hb : Buf tp T (T.length + 1)) :
+theorem gLoop_spec (c : Chart) (hf : ∀ s, c.fall s = false) (tp : List St) (T : St)
+    (hb : Buf tp T (T.length + 1)) :
     ∀ (t : St) (k : Ctx), ¬ t <:+ T →
     ∃ (iq : Nat) (k' : Ctx), gLoop c tp T.length t k = .ok ((iq : Int) - 1, k') ∧ iq ≤ T.length ∧
       T.drop iq = lca t T ∧
@@ -87,7 +89,7 @@ theorem gLoop_spec (c : Chart) (tp : List St) (T : St) (hb : Buf tp T (T.length 
       obtain ⟨h1, h2⟩ := scan_some hb hsc
       have hp : p <:+ T := suffix_iff_drop.mpr ⟨iq, h1, h2⟩
       refine ⟨iq, exitStep c (a :: p) k, ?_, h1, ?_, ?_⟩
-      · rw [gLoop]; simp only [hsc]; rfl
+      · rw [gLoop]; simp only [hsc, hf, Bool.false_eq_true, if_false]; rfl
       · rw [lca_of_suffix hp]; exact h2
       · rw [lca_of_suffix hp, pathUp_tail_self, exitStep_actions]; rfl
     | none =>
@@ -97,11 +99,12 @@ theorem gLoop_spec (c : Chart) (tp : List St) (T : St) (hb : Buf tp T (T.length 
         exact scan_none hb hsc i hi e
       obtain ⟨iq, k', e, h1, h2, h3⟩ := ih (exitStep c (a :: p) k) hp
       refine ⟨iq, k', ?_, h1, h2, ?_⟩
-      · rw [gLoop]; simp only [hsc]; exact e
+      · rw [gLoop]; simp only [hsc, hf, Bool.false_eq_true, if_false]; exact e
       · rw [h3, exitStep_actions, pathUp_cons_of_ne (ne_of_suffix_cons a (lca_suffix_left p T))]
         simp
 
-theorem trans_spec (c : Chart) (T S cur : St) (k : Ctx) (hT : T ≠ []) (hS : S ≠ []) :
+theorem trans_spec (c : Chart) (hf : ∀ s, c.fall s = false) (T S cur : St) (k : Ctx)
+    (hT : T ≠ []) (hS : S ≠ []) :
     ∃ o, trans_ c [T, cur, S] 2 T S k = .ok o ∧ o.mx + 1 = o.tp.length ∧
       ∃ m : Nat, m ≤ T.length ∧ o.ip = (m : Int) - 1 ∧ T.drop m = boundary S T ∧ Buf o.tp T m ∧
         actions o.k.log = actions k.log ++ (pathUp (boundary S T) S).map (⟨·, Sig.exit⟩) := by
@@ -114,6 +117,7 @@ theorem trans_spec (c : Chart) (T S cur : St) (k : Ctx) (hT : T ≠ []) (hS : S 
     have : i = 0 := by omega
     subst this; simp [rd]
   unfold trans_
+  simp only [noSuper_eq_false hf, Bool.false_eq_true, if_false]
   by_cases hST : a :: p = b :: q
   · rw [if_pos hST]
     refine ⟨⟨0, [b :: q, cur, a :: p], 2, (callExit c (a :: p) k).2⟩, rfl, by simp, 1, by simp, by simp,
@@ -121,7 +125,6 @@ theorem trans_spec (c : Chart) (T S cur : St) (k : Ctx) (hT : T ≠ []) (hS : S 
     · simp [boundary, hST]
     · simp only [boundary, if_pos hST, List.tail_cons, pathUp_tail_self, callExit_actions]; rfl
   · rw [if_neg hST, hbnd hST]
-    dsimp only []
     by_cases h1 : a :: p = (probe (b :: q) k).temp
     · rw [if_pos h1]
       replace h1 : a :: p = q := h1
@@ -159,11 +162,11 @@ theorem trans_spec (c : Chart) (T S cur : St) (k : Ctx) (hT : T ≠ []) (hS : S 
           simp only [probe_temp_cons]
           -- the (e) loop
           have hE : ∃ o, (match q with
-                | [] => some (EOut.mk false 1 ([b :: q, cur, a :: p].set 1 q) 2
+                | [] => Outcome.ok (EOut.mk false 1 ([b :: q, cur, a :: p].set 1 q) 2
                           (probe q (probe (a :: p) (probe (b :: q) k))))
-                | _ :: _ => eLoop (a :: p) (probe q (probe (a :: p) (probe (b :: q) k))).temp
+                | _ :: _ => eLoop c (a :: p) (probe q (probe (a :: p) (probe (b :: q) k))).temp
                           ([b :: q, cur, a :: p].set 1 q) 2 1
-                          (probe q (probe (a :: p) (probe (b :: q) k)))) = some o ∧
+                          (probe q (probe (a :: p) (probe (b :: q) k)))) = .ok o ∧
               o.mx + 1 = o.tp.length ∧ actions o.k.log = actions k.log ∧
               ((o.found = true ∧ o.ip + 1 ≤ (b :: q).length ∧ (b :: q).drop (o.ip + 1) = a :: p ∧
                   Buf o.tp (b :: q) (o.ip + 1)) ∨
@@ -178,7 +181,7 @@ theorem trans_spec (c : Chart) (T S cur : St) (k : Ctx) (hT : T ≠ []) (hS : S 
               refine ⟨_, rfl, by simp, by simp, Or.inr ⟨rfl, by simp, by simpa using hb2, ?_⟩⟩
               intro i hi1 hi2; simp at hi2; omega
             | cons d q' =>
-              obtain ⟨o, ho, g1, g2, g3⟩ := eLoop_spec (b :: d :: q') (a :: p) q'
+              obtain ⟨o, ho, g1, g2, g3⟩ := eLoop_spec c hf (b :: d :: q') (a :: p) q'
                 ([b :: d :: q', cur, a :: p].set 1 (d :: q')) 2 1
                 (probe (d :: q') (probe (a :: p) (probe (b :: d :: q') k))) (by simp) (by simp) hb2
                 (by simp) (by omega)
@@ -186,9 +189,10 @@ theorem trans_spec (c : Chart) (T S cur : St) (k : Ctx) (hT : T ≠ []) (hS : S 
           obtain ⟨o, ho, g1, g2, g3⟩ := hE
           split
           · rename_i heq; exact absurd (heq.symm.trans ho) (by simp)
+          · rename_i heq; exact absurd (heq.symm.trans ho) (by simp)
           rename_i found ip tp2 mx2 k4 heq
           have hoo := heq.symm.trans ho
-          simp only [Option.some.injEq] at hoo
+          simp only [Outcome.ok.injEq] at hoo
           subst hoo
           rcases g3 with ⟨f1, f2, f3, f4⟩ | ⟨f1, f2, f3, f4⟩
           · simp only at f1 f2 f3 f4 g1 g2
@@ -223,7 +227,7 @@ theorem trans_spec (c : Chart) (T S cur : St) (k : Ctx) (hT : T ≠ []) (hS : S 
                 intro hp
                 obtain ⟨i, hi, e⟩ := suffix_iff_drop.mp hp
                 exact scan_none f3 hsc i hi e
-              obtain ⟨iq, k', e, s1, s2, s3⟩ := gLoop_spec c tp2 (b :: q) f3 p (callExit c (a :: p) k4).2 hp
+              obtain ⟨iq, k', e, s1, s2, s3⟩ := gLoop_spec c hf tp2 (b :: q) f3 p (callExit c (a :: p) k4).2 hp
               simp only [e]
               refine ⟨_, rfl, g1, iq, s1, rfl, s2, f3.mono (by omega), ?_⟩
               rw [s3, callExit_actions, g2,
